@@ -12,3 +12,5 @@ run encode-heap-temporary C15 C16 C03 C17 C20 C14
 run seed-struct-layout C13 C06 C04 C15 C16 C10
 # a (correct) hash index for the unsorted lists, built inside polyseed_inject and read-only afterwards: new writable statics, no race
 run lookup-index-built-at-inject C20 C08 C07 C13 C09
+# polyseed_free wipes the block through the injected memzero in two adjacent pieces (tail first): covered is covered
+run free-wipes-in-two-calls C16 C15 C13 C14 C20
